@@ -1,6 +1,6 @@
-CONSTANTS Carrier = "rtsp"
- MaxHist = 3
- EmitAt = 3
+CONSTANTS Carrier = "wsp"
+ MaxHist = 12
+ EmitAt = 12
 INIT Init
 NEXT Next
 INVARIANTS Emit PlayingOnlyViaDescribeSetupPlay RecordingOnlyViaAnnounceSetupRecord
